@@ -104,7 +104,7 @@ def run(ctx):
     ctx.build(["c06"])
     mc(ctx)
     q = ctx.quick
-    per_arch = 150 if q else 5000
+    per_arch = 150 if q else 4000
     parts = 2 if q else 8
     jobs = []
     for a in ARCHS:
